@@ -13,6 +13,11 @@ mini    : the S-expression twin of every scenario is run by the Lean reference i
 tie     : the executable is linked from the very `.s` the compiler emitted (`dora compile -S`, then gcc as
           dora/src/driver/compile.rs does); the Lean validator runs on its tables, and the frames the Lean model of
           `dump_stack_elem` predicts for call sites of that artifact must reproduce the printed trace group by group.
+lookup  : the BYTECODE-level lookup the baseline code generator uses (`BytecodeBody::offset_location`) and its producer
+          (`BytecodeWriter::emit_location`): h_c14 (real dora-bytecode) vs drv_c14 (lean/DoraModel/Trace/Bytecode.lean) on
+          generated position tables (every offset from 0 to last + 2) and instruction sequences; on the implementation's
+          own answers the two statements of Props/C14 are evaluated (greatest offset <= q; every location-needing
+          instruction is answered with the location set for it).
 """
 import concurrent.futures as cf
 import hashlib
@@ -343,6 +348,125 @@ def expectation_from_interpreter(sc, out, outcome, chain):
     return dict(message=msg, status=status, frames=frames, stdout=out, cls=cls)
 
 
+# --------------------------------------------------------------------------------------------- bytecode-level lookup
+def _floor_answer(table, q):
+    """what `offset_location_floor` / `offset_location_no_floor` (Props/C14.lean) say"""
+    best = None
+    for off, line, col in table:
+        if off <= q:
+            best = (line, col)
+    if best is None:
+        best = (table[0][1], table[0][2]) if table else (1, 1)
+    return "%d.%d" % best
+
+
+def lookup_oracle(req, resp):
+    """the property's decidable form on the implementation's own answer; None = fine, else (key suffix, text)"""
+    p = req.split(" ")
+    if resp.startswith("!panic"):
+        if p[0] == "bcwr" and any(o.split(":")[4] == "1" and o.split(":")[6] == "-" for o in p[1].split(",")):
+            return None      # documented assertion of the writer: a location-needing opcode without `set_location`
+        return ("panic", "the lookup / the writer panics: " + resp[:120])
+    if p[0] == "bctab":
+        table = [] if p[1] == "-" else [tuple(int(x) for x in e.split(":")) for e in p[1].split(";")]
+        got = resp.split(" ")
+        for q, g in enumerate(got):
+            want = _floor_answer(table, q)
+            if g != want:
+                return ("floor", "offset_location(%d) = %s on the table %s; the entry with the greatest offset <= %d is %s"
+                        % (q, g, p[1][:200], q, want))
+        return None
+    if p[0] == "bcwr":
+        m = re.match(r"^len=(\d+) tab=(\S+) at=(\S*)$", resp)
+        if not m:
+            return ("format", "unreadable answer " + resp[:100])
+        ops = [o.split(":") for o in p[1].split(",")]
+        if int(m.group(1)) != sum(int(o[5]) for o in ops):
+            return None      # the sizes named in the request are not the writer's: the request is stale, not the code wrong
+        at = [x.split("=") for x in m.group(3).split(";")] if m.group(3) else []
+        for o, (off, g) in zip(ops, at):
+            if o[4] == "1" and o[6] != "-" and g != o[6]:
+                return ("own-location", "instruction `%s` at bytecode offset %s was emitted with location %s, offset_location answers %s "
+                        "(position table %s)" % (o[0], off, o[6], g, m.group(2)[:200]))
+        return None
+    return None
+
+
+def lookup_leg(ctx, drv, only_request=None):
+    """correspondence of the real `offset_location` / `BytecodeWriter` with the Lean model + the oracle above"""
+    st = dict(evaluations=0, distinct=set(), disagreements=0, oracle_failures=0, hist={}, samples=[], queries=0, gaps=0,
+              deduplicated_instructions=0)
+    hbin, hlog = C.build_harness("h_c14")
+    if hbin is None:
+        ctx.finding("corr:build-h_c14", dict(kind="correspondence", log=hlog[-3000:]),
+                    "harness h_c14 does not build against /repo (API of dora-bytecode changed?)", no_input=True)
+        st["disagreements"] += 1
+        return st
+    reqs = []
+    if only_request:
+        reqs = [only_request]
+    else:
+        cdir = os.path.join(C.VERIF, "corpus", "C14")
+        if os.path.isdir(cdir):
+            for f in sorted(os.listdir(cdir)):
+                if f.endswith(".req"):
+                    reqs += [l.strip() for l in open(os.path.join(cdir, f)) if l.strip() and not l.startswith("#")]
+        n = 500 if ctx.tier == "quick" else 20000
+        rc, gen, err = C.sh2([hbin, "gen", str(n)], env={"VERIF_SEED": str(ctx.seed)}, timeout=600)
+        reqs += [l for l in gen.splitlines() if l]
+    os.makedirs(os.path.join(C.BUILD, "tmp"), exist_ok=True)
+    rf = os.path.join(C.BUILD, "tmp", "c14_lookup_%d.req" % os.getpid())
+    open(rf, "w").write("\n".join(reqs) + "\n")
+    rc1, impl, err1 = C.sh2([hbin, "run", rf], timeout=900)
+    rc2, model, err2 = C.sh2([drv], stdin="\n".join(reqs) + "\n", timeout=900)
+    os.unlink(rf)
+    il, ml = impl.splitlines(), model.splitlines()
+    if rc1 != 0 or rc2 != 0 or len(il) != len(reqs) or len(ml) != len(reqs):
+        ctx.finding("corr:lookup-stream", dict(kind="correspondence", rc_impl=rc1, rc_model=rc2, n_req=len(reqs), n_impl=len(il),
+                                               n_model=len(ml), stderr=(err1 + err2)[-2000:]),
+                    "h_c14 or drv_c14 did not answer every lookup request", no_input=True)
+        st["disagreements"] += 1
+        return st
+    for req, a, b in zip(reqs, il, ml):
+        what = req.split(" ")[0]
+        st["evaluations"] += 1
+        st["hist"][what] = st["hist"].get(what, 0) + 1
+        a_n = "!panic" if a.startswith("!panic") else a
+        if what == "bctab":
+            ents = [] if req.split(" ")[1] == "-" else [int(e.split(":")[0]) for e in req.split(" ")[1].split(";")]
+            st["queries"] += len(a.split(" "))
+            gaps = sum(1 for x, y in zip(ents, ents[1:]) if y > x + 1)
+            st["gaps"] += gaps
+            if gaps:
+                st["distinct"].add(req)
+        else:
+            ops = [o.split(":") for o in req.split(" ")[1].split(",")]
+            m = re.match(r"^len=\d+ tab=(\S+) ", a)
+            nent = 0 if not m or m.group(1) == "-" else len(m.group(1).split(";"))
+            dedup = sum(1 for o in ops if o[4] == "1" and o[6] != "-") - nent
+            st["queries"] += len(ops)
+            if dedup > 0:
+                st["deduplicated_instructions"] += dedup
+                st["distinct"].add(req)
+        o = lookup_oracle(req, a)
+        if a_n != b:
+            st["disagreements"] += 1
+            ctx.finding("corr:offset-location:%s" % what,
+                        dict(kind="correspondence", request=req, impl=a, model=b, oracle=o and o[1],
+                             how_to_replay="./check C14 quick --replay <this file>   (or: echo '<request>' > r; "
+                                           ".build/harness-target/debug/h_c14 run r; lean/.lake/build/bin/drv_c14 < r)"),
+                        "real dora-bytecode and the Lean model disagree on `%s`: impl=%s model=%s%s"
+                        % (req[:100], a[:90], b[:90], ("; the property fails on the implementation: " + o[1]) if o else ""),
+                        no_input=(o is None))
+        elif o:
+            st["oracle_failures"] += 1
+            ctx.finding("oracle:offset-location:%s" % o[0], dict(kind="oracle", request=req, impl=a, why=o[1]), o[1])
+        if len(st["samples"]) < 3 and st["evaluations"] % 211 == 7:
+            st["samples"].append(dict(request=req[:300], impl=a[:300], model=b[:300]))
+    st["distinct"] = len(st["distinct"])
+    return st
+
+
 # --------------------------------------------------------------------------------------------- the check
 def load_corpus():
     specs = []
@@ -361,6 +485,14 @@ def run(ctx):
     drv, dlog = C.lean_exe("drv_c14")
     if drv is None:
         raise RuntimeError("driver build failed:\n" + dlog[-3000:])
+    only_req = None
+    if ctx.replay:
+        robj = json.load(open(ctx.replay))
+        only_req = robj.get("request")
+    look = lookup_leg(ctx, drv, only_request=only_req)
+    C.log("C14 lookup leg: %d requests (%d lookups, %d gaps between table entries, %d instructions without an entry of their own), "
+          "%d disagreements, %d oracle failures" % (look["evaluations"], look["queries"], look["gaps"],
+                                                    look["deduplicated_instructions"], look["disagreements"], look["oracle_failures"]))
     tc = C.toolchain(need_boots=True)
     std_dir = os.path.join(tc["dir"], "pkgs", "std")
     work = os.path.join(C.BUILD, "tmp", "c14_%d" % os.getpid())
@@ -380,7 +512,9 @@ def run(ctx):
 
     # ---- programs
     progs = []
-    if ctx.replay:
+    if ctx.replay and only_req:
+        pass                      # a lookup request: answered above
+    elif ctx.replay:
         obj = json.load(open(ctx.replay))
         rp = obj["spec"].get("random_program")
         if rp:
@@ -619,13 +753,21 @@ def run(ctx):
                    "hand-written model of LocationTable::get / dump_stack_elem / determine_stack_entry (lean/DoraModel/Trace/Model.lean), "
                    "tied per run: the frames it predicts from the executable's own tables must reproduce the printed trace",
                    "Rust std contract of slice::binary_search_by_key (modelled by a concrete halving search; unique answer proved on strictly increasing tables)",
+                   "hand-written model of BytecodeBody::offset_location and BytecodeWriter::{set_location, emit_location, emit_values} "
+                   "(lean/DoraModel/Trace/Bytecode.lean), tied per run by h_c14 (real dora-bytecode) vs drv_c14 on generated tables and instruction sequences",
                    "gen/c14_traps.py (expected reports by construction, cross-checked against the reference interpreter DoraModel.Mini.Eval)",
                    "tools/c14_extract.py + tools/artifact_extract.py, gcc, llvm-objdump; link step copied from dora/src/driver/compile.rs"],
                theorems=po["theorems"], evaluations=stats["runs"], distinct_nontrivial=len(distinct),
                rule="one case = (scenario, code generator, collector); a scenario = one failing operation kind (%d kinds) x a call chain of "
                     "1-4 links out of %s; every case is non-trivial: it must end in one specific report" % (len(G.KINDS), "/".join(G.LINKS)),
                histogram=stats["hist"], samples=stats["samples"] or [dict(note="none")],
-               disagreements=stats["disagreements"], oracle_failures=stats["oracle_failures"],
+               disagreements=stats["disagreements"] + look["disagreements"], oracle_failures=stats["oracle_failures"] + look["oracle_failures"],
+               bytecode_lookup=dict(look, rule="h_c14 vs drv_c14: `bctab` = a strictly increasing position table, offset_location at every "
+                                               "offset 0..last+2; `bcwr` = an instruction sequence emitted through the real BytecodeWriter as "
+                                               "the bytecode generator drives it (set_location right before location-taking emitters, forward "
+                                               "jumps, one- to three-byte operands, some location-needing opcodes without location: the "
+                                               "assertion), answer = code length, table, offset_location at every instruction; non-trivial = "
+                                               "table with a gap / sequence with an instruction that got no entry of its own"),
                scenarios=len(scenarios), programs=len(progs), configurations=["%s/%s" % (b, g) for (b, _, g, _) in configs],
                reference_interpreter=dict(twins_run=stats["mini_checked"], agree_with_generator=stats["mini_agree"]),
                random_programs=dict(generated=stats.get("random_total", 0), not_ending_in_a_report=stats.get("random_skipped", 0),
